@@ -767,6 +767,7 @@ func runC16(tier string, seed int64, outdir string, replay string) (retErr error
 					sc{"single", kind, "cancel-in-wait", true, true})
 			}
 		}
+		scs = append(scs, sc{"retry", "both", "first-type-rejected", false, true})
 		rounds := 1
 		if thorough {
 			rounds = 3
